@@ -676,6 +676,9 @@ func init() {
 	intrinsics["internal/bytealg.IndexByteString"] = func(in *Interp, fn *ssa.Function, a []Value) Value {
 		return in.bytealgIndexByte(a[0], a[1].(Term))
 	}
+	intrinsics["internal/stringslite.IndexByte"] = func(in *Interp, fn *ssa.Function, a []Value) Value {
+		return in.bytealgIndexByte(a[0], a[1].(Term))
+	}
 	intrinsics["internal/bytealg.Count"] = func(in *Interp, fn *ssa.Function, a []Value) Value {
 		return in.bytealgCount(a[0], a[1].(Term))
 	}
